@@ -120,15 +120,21 @@ def A(arrays, arr, idx):
 # }}}
 
 
-def build(h, clause, fn, *args, **kwargs):
-    """Call a public constructor; exceptions end the path (rejection is
-    allowed: the property only constrains what is accepted)."""
+def build(h, clause, fn, *args, must_accept=False, **kwargs):
+    """Call a public constructor; exceptions end the path.  Rejection is
+    allowed where NumPy may reject too (C03 constrains what is accepted);
+    with *must_accept* the operands are NumPy-valid by construction and a
+    rejection is a failure of C01 ("never fails in the supported
+    fragment")."""
     try:
         return h.call(fn, *args, **kwargs)
     except EngineSignal:
         raise
     except (ValueError, TypeError, IndexError, NotImplementedError) as e:
-        h.ctx.notes  # noqa: B018
+        if must_accept:
+            h.fail(f"{clause}.accepts-what-numpy-accepts",
+                   f"{type(e).__name__}: {e}", props=("C01",))
+            return None
         h.oblige(f"{clause}.rejected", z3.BoolVal(True), props=("C03",),
                  info=f"{type(e).__name__}")
         return None
@@ -230,15 +236,18 @@ class BinaryOps(Contract):
             x, y = 3, a
         if kind in ("arrarr", "scalar"):
             pyop, zop = BINOPS[op]
-            res = build(h, "build.binary", pyop, x, y)
+            res = build(h, "build.binary", pyop, x, y,
+                        must_accept=True)
         elif kind in ("cmp", "cmp-scalar"):
             zop = lambda p, q: b2i(CMPS[op](p, q))  # noqa: E731
-            res = build(h, "build.binary", getattr(pt, op), x, y)
+            res = build(h, "build.binary", getattr(pt, op), x, y,
+                        must_accept=True)
         else:
             zop = (lambda p, q: b2i(z3.And(p != 0, q != 0))) \
                 if op == "logical_and" else \
                 (lambda p, q: b2i(z3.Or(p != 0, q != 0)))
-            res = build(h, "build.binary", getattr(pt, op), x, y)
+            res = build(h, "build.binary", getattr(pt, op), x, y,
+                        must_accept=True)
         if res is None:
             return
         if not isinstance(res, IndexLambda):
@@ -350,13 +359,16 @@ class WhereMaxMin(Contract):
         ops = [mk_bcast_operand(h, f"a{k}", p, common)
                for k, p in enumerate(pats)]
         if fn == "where":
-            res = build(h, "build.where", pt.where, *ops)
+            res = build(h, "build.where", pt.where, *ops,
+                        must_accept=True)
             args = ops
         elif fn == "where-scalar":
-            res = build(h, "build.where", pt.where, ops[0], 2.5, ops[0])
+            res = build(h, "build.where", pt.where, ops[0], 2.5, ops[0],
+                        must_accept=True)
             args = [ops[0], 2.5, ops[0]]
         else:
-            res = build(h, "build.where", getattr(pt, fn), *ops)
+            res = build(h, "build.where", getattr(pt, fn), *ops,
+                        must_accept=True)
             args = ops
         if res is None:
             return
@@ -425,17 +437,20 @@ class UnaryAndMath(Contract):
         a = mk_placeholder(h, "a", shape=ns)
         idt = lambda iv: A(arrays, a, list(iv))  # noqa: E731
         if fn == "neg":
-            res = build(h, "build.unary", operator.neg, a)
+            res = build(h, "build.unary", operator.neg, a,
+                        must_accept=True)
             spec = lambda iv: -1 * idt(iv)  # noqa: E731
             shape = ns
         elif fn in UNARY_FUNCS:
-            res = build(h, "build.unary", getattr(pt, fn), a)
+            res = build(h, "build.unary", getattr(pt, fn), a,
+                        must_accept=True)
             f = uf("call_pytato.c99." + C99_NAME.get(fn, fn), 1)
             spec = lambda iv: f(idt(iv))  # noqa: E731
             shape = ns
         elif fn == "arctan2":
             b = mk_placeholder(h, "b", shape=ns)
-            res = build(h, "build.unary", pt.arctan2, a, b)
+            res = build(h, "build.unary", pt.arctan2, a, b,
+                        must_accept=True)
             f = uf("call_pytato.c99.atan2", 2)
             spec = lambda iv: f(idt(iv), A(arrays, b, list(iv)))  # noqa: E731
             shape = ns
@@ -444,26 +459,31 @@ class UnaryAndMath(Contract):
             spec = idt
             shape = ns
         elif fn == "logical_not":
-            res = build(h, "build.unary", pt.logical_not, a)
+            res = build(h, "build.unary", pt.logical_not, a,
+                        must_accept=True)
             spec = lambda iv: b2i(idt(iv) == 0)  # noqa: E731
             shape = ns
         elif fn == "broadcast_to":
             pat = inst["pat"]
             src = mk_bcast_operand(h, "s", pat, ns)
-            res = build(h, "build.unary", pt.broadcast_to, src, tuple(ns))
+            res = build(h, "build.unary", pt.broadcast_to, src, tuple(ns),
+                        must_accept=True)
             spec = lambda iv: A(arrays, src, bidx(iv, src.shape, ns))  # noqa: E731
             shape = ns
         elif fn in ("full", "zeros"):
             if fn == "full":
-                res = build(h, "build.unary", pt.full, tuple(ns), 2.5)
+                res = build(h, "build.unary", pt.full, tuple(ns), 2.5,
+                        must_accept=True)
                 spec = lambda iv: lit(2.5)  # noqa: E731
             else:
-                res = build(h, "build.unary", pt.zeros, tuple(ns))
+                res = build(h, "build.unary", pt.zeros, tuple(ns),
+                        must_accept=True)
                 spec = lambda iv: z3.IntVal(0)  # noqa: E731
             shape = ns
         elif fn == "eye":
             k = inst["k"]
-            res = build(h, "build.unary", pt.eye, ns[0], ns[1], k)
+            res = build(h, "build.unary", pt.eye, ns[0], ns[1], k,
+                        must_accept=True)
             kk = k + (1 if h.canary == "wrong-diagonal" else 0)
             spec = lambda iv: z3.If(iv[1] - iv[0] == kk, z3.IntVal(1),  # noqa: E731
                                     z3.IntVal(0))
@@ -541,6 +561,15 @@ class Reductions(Contract):
                 len({x % r for x in axis}) == len(axis)
             norm = [x % r for x in axis] if np_ok else []
         if res is None:
+            if np_ok:
+                # NumPy rejects max/min over an empty axis (no identity);
+                # nothing else about a valid axis argument
+                empty = z3.Or([shape_term(ns[d]) == 0 for d in norm]
+                              + [z3.BoolVal(False)])
+                h.oblige("build.reduction.rejected=>numpy-rejects",
+                         empty if fn in ("amax", "amin")
+                         else z3.BoolVal(False), props=("C01",),
+                         info=f"axis={axis} rank={r}")
             return
         h.oblige("build.reduction.accepted=>numpy-accepts-axis",
                  z3.BoolVal(np_ok), props=("C03",),
@@ -606,7 +635,8 @@ class Pad(Contract):
         pw = [(h.nonneg(f"before{d}"), h.nonneg(f"after{d}"))
               for d in range(r)]
         cv = [(10 + 2 * d, 11 + 2 * d) for d in range(r)]
-        res = build(h, "build.pad", pt.pad, a, pw, constant_values=cv)
+        res = build(h, "build.pad", pt.pad, a, pw, constant_values=cv,
+                        must_accept=True)
         if res is None:
             return
         bz = [(z_of(b), z_of(af)) for b, af in pw]
